@@ -219,7 +219,11 @@ impl<'a> Sk<'a> {
                 let r = self.val(&b.right, &mut o2)?;
                 out.extend(o1);
                 out.extend(o2);
-                let op = b.op.to_token_stream().to_string();
+                let mut op = b.op.to_token_stream().to_string();
+                let is_bool = |t: &Option<String>| t.as_ref().map(|x| x == "true" || x == "false" || self.kept.get(x).map(|ty| ty == "bool").unwrap_or(false)).unwrap_or(false);
+                if (op == "|" || op == "&") && (is_bool(&l) || is_bool(&r)) {
+                    op = if op == "|" { "||".into() } else { "&&".into() };
+                }
                 match (l, r) {
                     (Some(a), Some(c)) if !op.ends_with('=') || ["==", "!=", "<=", ">="].contains(&op.as_str()) => Ok(Some(format!("{a} {op} {c}"))),
                     _ => Ok(None),
@@ -946,7 +950,14 @@ impl<'a> Sk<'a> {
                 });
                 if let Some(n) = name.filter(|n| self.kept.contains_key(n)) {
                     let ty = self.kept[&n].clone();
+                    let opt = b.op.to_token_stream().to_string();
                     match rhs {
+                        // S9: `x |= y` / `x &= y` on kept booleans: Verus has no non-short-circuit bool operators;
+                        // kept expressions have no effects, so `||` / `&&` are equivalent
+                        Some(r) if ty == "bool" && (opt == "|=" || opt == "&=") => {
+                            let o2 = if opt == "|=" { "||" } else { "&&" };
+                            out.push(format!("{n} = {n} {o2} ({r}); {}", self.srcnote(e.span())));
+                        }
                         Some(r) => out.push(format!("{n} {} {r}; {}", b.op.to_token_stream(), self.srcnote(e.span()))),
                         None => out.push(format!("{n} = {}; {}", self.nd_of(&ty), self.srcnote(e.span()))),
                     }
